@@ -292,6 +292,20 @@ Definition F_attrnames (M : cmodel) : bool :=
                                       && match kind_of M f with
                                          | KRef _ => negb (str_in (f_name f ++ "_id") ns)
                                          | _ => true end) (own_public_fields M c)) M.
+(* C06-n (5e556b1): an attribute of a subclass DAO named like a column of an ancestor's table (x_id beside an inherited
+   reference x, or the discriminator) is refused as well *)
+Definition derived_cols (M : cmodel) (c : cls) : list string :=
+  flat_map (fun f => match kind_of M f with
+                     | KColumn _ _ _ => [f_name f]
+                     | KRef _ => [f_name f ++ "_id"]
+                     | _ => [] end) (own_public_fields M c).
+Definition derived_attrs (M : cmodel) (c : cls) : list string :=
+  List.app (field_names (own_public_fields M c))
+           (flat_map (fun f => match kind_of M f with KRef _ => [f_name f ++ "_id"] | _ => [] end) (own_public_fields M c)).
+Definition F_inherited (M : cmodel) : bool :=
+  forallb (fun c => let inh := List.app (flat_map (derived_cols M) (ancestors (List.length M) M c))
+                                        (match parent_of M c with Some _ => ["polymorphic_type"] | None => [] end) in
+                    forallb (fun n => negb (str_in n inh)) (derived_attrs M c)) M.
 (* C06-h/k: two classes / collection fields stored under the same name; [tname] and [aname] are the generator's naming of
    the table of a class and of the association table of a collection field *)
 Definition storage_names (tname : string -> string) (aname : string -> string -> string) (M : cmodel) : list string :=
@@ -299,7 +313,7 @@ Definition storage_names (tname : string -> string) (aname : string -> string ->
   ++ flat_map (fun c => flat_map (fun f => match kind_of M f with KColl _ => [aname (tname (c_name c)) (f_name f)] | _ => [] end)
                                  (own_public_fields M c)) M.
 Definition spec_refused (tname : string -> string) (aname : string -> string -> string) (M : cmodel) : bool :=
-  negb (F_attrnames M) || negb (str_nodup (storage_names tname aname M)).
+  negb (F_attrnames M) || negb (F_inherited M) || negb (str_nodup (storage_names tname aname M)).
 (* what the property asks for, including the refused shapes: [2] = refused with a ValueError at generation *)
 Definition spec_obs_r (tname : string -> string) (aname : string -> string -> string) (M : cmodel) : sx :=
   if spec_refused tname aname M then SL [SZ 2] else spec_obs M.
@@ -307,4 +321,4 @@ Definition spec_obs_r (tname : string -> string) (aname : string -> string -> st
 (* C06-g (open): class names stay distinct when lower-cased; and no underscore (association names stay unambiguous) *)
 Definition F_classnames (M : cmodel) : bool :=
   str_nodup (map py_lower (class_names M)) && forallb (fun c => negb (contains_char "_" (c_name c))) M.
-Definition inF (M : cmodel) : bool := F_attrnames M && F_classnames M.
+Definition inF (M : cmodel) : bool := F_attrnames M && F_inherited M && F_classnames M.
